@@ -408,7 +408,7 @@ where for<'x> &'x R: RingOps<R> {
 
     let mut sorted = internal.clone();
     sorted.sort_by_key(|p| (p.1, p.0));
-    let reply = format!("seq:{} piv:{} chk:ok", pairs_str(&seq), pairs_str(&sorted));
+    let reply = format!("piv:{} chk:ok", pairs_str(&sorted));
     s.case(&req, &reply, !evs.is_empty());
 }
 
